@@ -17,6 +17,7 @@
 //   append <name:hex> <bytes:hex>    the holder of the article lock (another process) appends bytes to the article
 //   finish <id>                      ... is let go: it appends and updates the index from its (stale) copy
 //   expire <id>                      ... is kept waiting until its five attempts are used up: it must fail, nothing changes
+//   par <rounds> <type> <text:hex> <mtime>   one commenter per index entry, all at the same moment, <rounds> comments each
 //   redir <dir:hex>                  another tool rewrites the board index (temp + rename, article count refreshed)
 //   zone <location>                  the site's TIME_LOCATION through viper + types.InitConfig
 //   mark <type>                      CommentType(type).Bytes() (validates the regenerated table)
@@ -871,6 +872,7 @@ type ticket struct {
 	classes  []string
 	lockFile *os.File
 	lockPath string
+	beginT   int64
 	foreign  bool // the lock is held like another process would: flock only, no entry in this process's lock table
 	target   string
 	done     chan outcome
@@ -912,7 +914,7 @@ func doBegin(line string, w []string) {
 	}
 	dir0 := readDir()
 	k := specLookup(dir0, c.req)
-	t := &ticket{c: c, classes: classify(dir0, c.req, c.text), done: make(chan outcome, 1)}
+	t := &ticket{c: c, classes: classify(dir0, c.req, c.text), done: make(chan outcome, 1), beginT: time.Now().Unix()}
 	if k >= 0 {
 		t.target = string(cstr(dir0[k*recSz : k*recSz+lenName]))
 		for _, o := range tickets {
@@ -1037,7 +1039,7 @@ func doFinish(line string, w []string) {
 	delete(tickets, w[1])
 	dir0 := readDir()
 	files0 := readFiles()
-	t0 := time.Now().Unix()
+	t0 := t.beginT // the line was formatted (and carries the time of) the commenter's lookup, at `begin`
 	expire := w[0] == "expire"
 	if !expire {
 		t.release()
@@ -1132,6 +1134,179 @@ func doRedir(line string, w []string) {
 	run.Op(line, "ok "+stateStr(dir), "index-rewritten", false)
 }
 
+// ---- many commenters at the same moment, each on its own article (par) ------------------------------
+//
+// `par <rounds> <type> <text> <mtime>`: one goroutine per index entry, each performing <rounds> REAL
+// ptt.Recommend calls on its own article, all released together.  Different articles, different locks,
+// different index slots: the result must be what the same comments give one after the other (the model
+// applies them sequentially).  Judged per entry and per article, independently of the model: every index
+// entry keeps its name, owner, title ... (only Modified and the score may differ), the score moved by the
+// entry's OWN accepted comments only, every article is its old content followed by exactly the lines returned
+// to its own commenter, in order.
+func doPar(line string, w []string) {
+	if len(w) != 5 || !haveReset || len(tickets) > 0 {
+		bad(line)
+		return
+	}
+	rounds, ok1 := parseNat(w[1], 50)
+	ctype, ok2 := parseNat(w[2], 255)
+	text, ok3 := parseHex(w[3])
+	mtok, ok4 := parseNat(w[4], 2147483647)
+	dir0 := readDir()
+	total := len(dir0) / recSz
+	if !(ok1 && ok2 && ok3 && ok4) || rounds == 0 || mtok == 0 || len(text) > 4096 || total == 0 || total > 64 {
+		bad(line)
+		return
+	}
+	seen := map[string]bool{}
+	for k := 0; k < total; k++ {
+		n := cstr(dir0[k*recSz : k*recSz+lenName])
+		_, exists := rawFiles[string(n)]
+		if !safeName(n) || !exists || seen[string(n[2:])] {
+			bad(line)
+			return
+		}
+		seen[string(n[2:])] = true
+	}
+	files0 := readFiles()
+	user := make([]byte, ptttype.IDLEN+1)
+	copy(user, "A1")
+	ip := make([]byte, ptttype.IPV4LEN+1)
+	copy(ip, "10.9.8.7")
+	outs := make([][]outcome, total)
+	classes := make([][]string, total)
+	start := make(chan struct{})
+	done := make(chan int, total)
+	t0 := time.Now().Unix()
+	for k := 0; k < total; k++ {
+		req := append([]byte{}, dir0[k*recSz:k*recSz+lenName]...)
+		c := &call{"ptt", "user", user, req, text, ip, ctype, mtok}
+		classes[k] = classify(dir0, req, text)
+		go func(k int) {
+			defer func() {
+				if e := recover(); e != nil {
+					hx.LastPanic = fmt.Sprint(e)
+					outs[k] = append(outs[k], outcome{err: errPanic})
+				}
+				done <- k
+			}()
+			<-start
+			for r := 0; r < int(rounds); r++ {
+				outs[k] = append(outs[k], c.invoke())
+			}
+		}(k)
+	}
+	close(start)
+	timeout := time.After(30 * time.Second)
+	for i := 0; i < total; i++ {
+		select {
+		case <-done:
+		case <-timeout:
+			i = total
+			run.Op(line, "TIMEOUT", "par:TIMEOUT", true)
+			run.Fail(-1, "crash:recommend", "TIMEOUT in concurrent Recommend")
+			return
+		}
+	}
+	t1 := time.Now().Unix()
+	dir1 := readDir()
+	files1 := readFiles()
+	judgeT0, judgeT1 = t0, t1
+
+	var fails [][2]string
+	failf := func(key, f string, a ...interface{}) { fails = append(fails, [2]string{key, fmt.Sprintf(f, a...)}) }
+	delta := 0
+	if ctype == 1 {
+		delta = 1
+	} else if ctype == 2 {
+		delta = -1
+	}
+	nok := 0
+	patched := append([]byte{}, dir1...)
+	if len(dir1) != len(dir0) {
+		failf("frame:dir", ".DIR length changed %d -> %d", len(dir0), len(dir1))
+	}
+	if len(files1) != len(files0) {
+		failf("append:prefix", "the set of article files changed")
+	}
+	for k := 0; k < total && len(dir1) == len(dir0); k++ {
+		a, b := dir0[k*recSz:(k+1)*recSz], dir1[k*recSz:(k+1)*recSz]
+		name := string(cstr(a[:lenName]))
+		// --- this entry's own accepted comments
+		var lines [][]byte
+		var lastM types.Time4
+		for _, o := range outs[k] {
+			if o.err == errPanic {
+				failf("crash:recommend", "PANIC in Recommend (%s)", hx.LastPanic)
+			} else if o.err == nil {
+				lines = append(lines, o.comment)
+				lastM = o.mtime
+				for _, c := range classes[k] {
+					failf("refusal:"+c, "comment accepted although entry %d is in refusal class %q", k, c)
+				}
+			} else if len(classes[k]) == 0 {
+				failf("par:error", "a comment on entry %d (its own article, nobody else's) returned %v", k, o.err)
+			}
+		}
+		nok += len(lines)
+		// --- the entry: only Modified and the score may differ
+		for p := 0; p < recSz; p++ {
+			if a[p] != b[p] && !(p >= offModified && p < offModified+4) && p != offRecmd {
+				failf("frame:dir", "index entry %d (%s): byte %d changed (%02x -> %02x) while only comments on OTHER articles and its own were running; the entry now names %q",
+					k, name, p, a[p], b[p], cstr(b[:lenName]))
+				break
+			}
+		}
+		oldS, newS := int(int8(a[offRecmd])), int(int8(b[offRecmd]))
+		if oldS >= -100 && oldS <= 100 {
+			want := oldS
+			for range lines {
+				want = clampScore(want + delta)
+			}
+			if newS != want {
+				failf("score:step", "entry %d: %d accepted comments of type %d on score %d give %d, expected %d", k, len(lines), ctype, oldS, newS, want)
+			}
+			if newS < -100 || newS > 100 {
+				failf("score:range", "entry %d: score %d -> %d leaves [-100,100]", k, oldS, newS)
+			}
+		}
+		if len(lines) > 0 {
+			mod := int64(int32(uint32(b[offModified]) | uint32(b[offModified+1])<<8 | uint32(b[offModified+2])<<16 | uint32(b[offModified+3])<<24))
+			if mod != int64(lastM) || mod < t0-2 || mod > t1+2 {
+				failf("frame:mtime", "entry %d: Modified on disk %d, last returned %d, wall clock [%d,%d]", k, mod, lastM, t0, t1)
+			}
+			o := k*recSz + offModified
+			patched[o], patched[o+1], patched[o+2], patched[o+3] = byte(mtok), byte(mtok>>8), byte(mtok>>16), byte(mtok>>24)
+		}
+		// --- the article: old content, then exactly the lines returned to its own commenter
+		want := append([]byte{}, files0[name]...)
+		masked := append([]byte{}, shadow[name]...)
+		for _, l := range lines {
+			want = append(want, l...)
+			m, _ := maskTime(l)
+			masked = append(masked, m...)
+			judgeShape(failf, l, ctype, cstr(user), text, ip)
+		}
+		if !bytes.Equal(files1[name], want) {
+			failf("append:prefix", "article %s is not its old content followed by the %d lines returned to its commenter (%d bytes, expected %d)",
+				name, len(lines), len(files1[name]), len(want))
+			masked = files1[name]
+		}
+		rawFiles[name] = files1[name]
+		shadow[name] = masked
+	}
+	if len(dir1) == len(dir0) && !bytes.Equal(patched, dir1) {
+		if err := os.WriteFile(dirPath, patched, 0o644); err != nil {
+			fatal("patch .DIR: %v", err)
+		}
+	}
+	label := fmt.Sprintf("par:%s:n=%d", typeLabel(ctype), total)
+	i := run.Op(line, fmt.Sprintf("ok accepted=%d %s", nok, stateStr(patched)), label, true)
+	for _, f := range fails {
+		run.Fail(i, f[0], f[1])
+	}
+}
+
 // judgeShape: the appended bytes are one comment line for (type, commenter, text).
 func judgeShape(failf func(string, string, ...interface{}), line []byte, ctype uint64, uid, text, ip []byte) {
 	n := len(line)
@@ -1213,6 +1388,8 @@ func execLine(line string) {
 		doFinish(line, w)
 	case "append":
 		doAppend(line, w)
+	case "par":
+		doPar(line, w)
 	case "zone":
 		doZone(line, w)
 	case "redir":
